@@ -166,7 +166,7 @@ class C02:
             'assignment, argument, return), restricted to conversions C11 6.3.1.4 defines (decided exactly); (b) every binary operator, comparison, '
             'unary operator, truth context, compound assignment and ++/-- over fp and mixed int/fp operands drawn from the special-value pools; '
             '(c) nested fp/int expressions to depth 4; (d) decimal and hexadecimal floating constants x suffixes; (e) default argument promotion through '
-            'variadic calls. Oracle: raw result bits (NaN canonicalised) of gcc and clang must agree and chibicc must equal them. '
+            'variadic calls; (f) any of the above followed by rounding-sensitive x87 and SSE probes (the floating-point environment must survive); (g) static objects initialized from constants: integers up to 2^64-1 -> each floating type, floating constants -> each integer type, enum-typed operands, hexadecimal floating constants longer than the mantissa. Oracle: raw result bits (NaN canonicalised) of gcc and clang must agree and chibicc must equal them. '
             'non-trivial = involves a boundary-class value (0,-0,denormal,2^24,2^31,2^32,2^53,2^63,2^64,inf,NaN), a long double operand, or a mixed-type pair; '
             'distinct by (form, operation, type pair, value-class pair).')
     assumptions = ['gcc 12 / clang 14 at -O0 -std=gnu11 implement IEEE-754 binary32/64 and x87 extended arithmetic with FLT_EVAL_METHOD 0',
@@ -459,9 +459,68 @@ class C02:
         body = '\n'.join(g.decls) + '\n  @va(%d, %s);\n' % (n, ', '.join(args))
         return diffprog.Case(decls=decls, body=body, nt=('va', tuple(args and [a[1] for a in args])), tags=['variadic'])
 
+    # (f) the floating-point environment survives every operation --------------------
+    def g_state(self, ch, depth):
+        """Any conversion or operator case, followed in the same function by inexact x87 and SSE operations whose results depend
+        on the rounding mode and precision control: an operation that leaves the control word changed shows here."""
+        c = self.g_conv(ch) if ch.bool() else self.g_op(ch)
+        if c is None:
+            return None
+        probe = ('  { volatile long double @qa = 1.0L, @qb = 3.0L, @qc = 0.1L; volatile double @qd = 1.0, @qe = 3.0; volatile float @qf = 0.1f;\n'
+                 '    PL("@", @qa / @qb); PL("@", @qc * @qc + @qa); PD("@", (double)(@qa / @qb)); PF("@", (float)(@qc * @qb));\n'
+                 '    PD("@", @qd / @qe); PF("@", @qf * @qf); PL("@", (long double)@qd / @qe); }\n')
+        nt = ('state',) + tuple(c.nt or ())
+        return diffprog.Case(decls=c.decls, body=c.body + probe, nt=nt, tags=list(c.tags) + ['fp-state-probe'])
+
+    # (g) conversions and arithmetic done at translation time --------------------------
+    def g_const(self, ch):
+        """Objects with static storage initialized from constants: integer constants up to 2^64-1 converted to each floating type,
+        floating constants converted to each integer type (where 6.3.1.4 defines it), enumeration constants and enum-typed
+        operands, and hexadecimal floating constants with more digits than the type holds (must be correctly rounded).
+        The enumerations always have a negative enumerator: without one gcc and clang choose unsigned int as the compatible type,
+        chibicc int, and C11 6.7.2.2p4 leaves that choice to the implementation."""
+        k = ch.int(0, 3)
+        d = ch.choice(FMTS)
+        D = cname(d)
+        if k == 0:
+            v = ch.choice(ROUNDING_INTS + [2 ** 63, 2 ** 64 - 1, 2 ** 63 - 1, 2 ** 64 - 1025])
+            lit = '%dUL' % v if v >= 0 else '(%dL)' % v
+            body = '  { static %s @s = %s; %s s2 = %s; %s %s }' % (D, lit, D, lit, printer(d, '@s'), printer(d, 's2'))
+            nt = ('const', 'int->fp', sname(d), v >= 2 ** 63)
+            tags = ['const:int->%s' % sname(d)]
+        elif k == 1:
+            it = ch.choice([t for t in ITYPES])
+            cands = [x for x in ['0.5', '2.9', '-2.9', '255.9', '65535.5', '2147483647.5', '4294967295.5', '9223372036854775808.0', '1.8e19', '1.2e19f', '18446744073709549568.0', '-0.9', '1e10', '3000000000.0']
+                     if fp_to_int_defined(Fraction(float(x.rstrip('f'))), it)]
+            lit = ch.choice(cands)
+            body = '  { static %s @s = %s; %s s2 = %s; PI("@", (long)@s); PI("@", (long)s2); }' % (it.name, lit, it.name, lit)
+            nt = ('const', 'fp->int', it.short, lit)
+            tags = ['const:fp->%s' % it.short]
+        elif k == 2:
+            ev = ch.choice([-1, -5, 0, 7, -2147483647])
+            op = ch.choice(['*', '+', '<', '-', '/'])
+            rhs = ch.choice(['0.5', '2', '0.5f', '1.5L', '2L', '3u'])
+            body = ('  { enum @E { @A = %d, @B = 3, @N = -9 }; volatile enum @E e = @A; %s r = e; %s PD("@", (double)(e %s %s)); PI("@", (long)(e %s 2)); PL("@", (long double)e); }'
+                    % (ev, D, printer(d, 'r'), op, rhs, op))
+            nt = ('enum', sname(d), op, rhs, ev < 0)
+            tags = ['enum-operand']
+        else:
+            mant = ch.choice(['1.00000000000008000001', '1.fffffffffffff7ff', '1.0000010000000001', '1.000001', '1.ffffff0000001', '1.00000000000008', '1.8000000000000001', '1.0000000000000001'])
+            e = ch.choice([0, 1, -1, 100, -126, -1022, -149, -1074, 127])
+            suf = {F32: 'f', F64: '', F80: 'L'}[d]
+            lit = '0x%sp%d%s' % (mant, e, suf)
+            body = '  { static %s @s = %s; %s s2 = %s; %s %s }' % (D, lit, D, lit, printer(d, '@s'), printer(d, 's2'))
+            nt = ('hexfloat', sname(d), mant, e)
+            tags = ['hexfloat-long-mantissa']
+        return diffprog.Case(decls='', body=body + '\n', nt=nt, tags=tags)
+
     def gen_case(self, ch, depth):
         k = ch.int(0, 99)
-        if k < 33:
+        if k < 8:
+            return self.g_state(ch, depth)
+        if k < 18:
+            return self.g_const(ch)
+        if k < 40:
             return self.g_conv(ch)
         if k < 66:
             return self.g_op(ch)
